@@ -173,7 +173,7 @@ func uRangeOf(v ssa.Value, depth int, wraps *[]*ssa.BinOp) urange {
 
 // R03.27: a carry / borrow / overflow test does not compare against a wrapped difference.
 func checkWrappedComparisons(c *core.Ctx) {
-	st := c.Rule("R03.27", "a carry, borrow or range test in an ALU handler does not compare against an unsigned difference that can wrap: for every ordering comparison (<, <=, >, >=) of unsigned operands in the two ALUs, each subtraction inside an operand is evaluated over intervals (a conversion from uintN bounds a value by 2^N-1, (w & (1<<s)) >> s and w & 1 are one bit, constants are exact) and the smallest minuend must not be below the largest subtrahend when both are bounded - `src0 > MaxUint32 - carry - src1` in 64-bit arithmetic wraps for src1 = 0xFFFFFFFF, carry = 1 and is then never true", 6)
+	st := c.Rule("R03.27", "a carry, borrow or range test in an ALU handler does not compare against an unsigned difference that can wrap: for every ordering comparison (<, <=, >, >=) of unsigned operands in the two ALUs, each subtraction inside an operand is evaluated over intervals (a conversion from uintN bounds a value by 2^N-1, (w & (1<<s)) >> s and w & 1 are one bit, constants are exact) and the smallest minuend must not be below the largest subtrahend when both are bounded - `src0 > MaxUint32 - carry - src1` in 64-bit arithmetic wraps for src1 = 0xFFFFFFFF, carry = 1 and is then never true", 3)
 	for _, rel := range []string{emuPkg, cdna3Pkg} {
 		for _, fn := range c.SrcFuncs(rel) {
 			for _, b := range fn.Blocks {
